@@ -126,5 +126,5 @@ def run(ctx: Ctx):
     ctx.check(ok, "R12.b", sch.key("forward"), "scheme builder receives remove_unused=self.remove_unused", "CodeGenerator.scheme does not pass remove_unused=self.remove_unused to the builder", sch.where())
 
     # ---- R12.c same layout -----------------------------------------------------------------------
-    ctx.rule("R12.c", "state slot layout is the same with and without removal (STATE slot family, remove_unused is a post-sort filter over intermediates)", floor=11)
-    slot_families(ctx, "R12.c", only_family="STATE")
+    ctx.rule("R12.c", "state slot layout is the same with and without removal (STATE slot family, remove_unused is a post-sort filter over intermediates)", floor=10)
+    slot_families(ctx, "R12.c", only_family="STATE", check_guard=False)
